@@ -23,6 +23,7 @@ const modPath = "seehuhn.de/go/sfnt"
 // the working tree under analysis.
 type World struct {
 	glens map[*ssa.Global]int64
+	gvals map[*ssa.Global]ssa.Value
 	Dir    string
 	Pkgs   []*packages.Package // module packages (roots of the load)
 	All    map[string]*packages.Package
